@@ -485,6 +485,58 @@ fn scenarios(thorough: bool) -> Vec<ExtScenario> {
             consistent_store: true,
         });
     }
+    // (audit) glyph keyed format-2 entries of very different encoded sizes (features + design space,
+    // u24 bias, child list + id delta, branch-factor-32 bit set): the ignored-bit position of every
+    // entry depends on the byte lengths of all entries before it
+    {
+        let mut e0 = e(&[A], 3, None);
+        e0.fds = true;
+        e0.features = vec![LIGA];
+        e0.segs = vec![seg(WGHT, 100, 400), seg(WDTH, 75, 100)];
+        let mut e1 = e(&[A], 3, None);
+        e1.cps = Cps::Set { bias_kind: 2, bias: 0x40, members: vec![A] };
+        let mut e2 = e(&[B], 3, Some((false, vec![0])));
+        e2.id = IdSpec::Delta(3);
+        let mut e3 = e(&[B], 3, None);
+        let vals: BTreeSet<u64> = [2u64].into_iter().collect();
+        e3.cps = Cps::Raw { bias_kind: 1, bias: 0x40, bytes: sbs_encode(32, 1, &vals, true), members: vec![B], invalid: false };
+        let e4 = e(&[A, B], 3, None);
+        for order in [[0usize, 1, 2, 3, 4], [3, 1, 0, 4, 2], [1, 3, 4, 0, 2]] {
+            let all = [e0.clone(), e1.clone(), e2.clone(), e3.clone(), e4.clone()];
+            let mut entries: Vec<E2> = order.iter().map(|k| all[*k].clone()).collect();
+            // the child list may only name earlier entries
+            for (i, x) in entries.iter_mut().enumerate() {
+                if x.children.is_some() {
+                    x.children = if i == 0 { None } else { Some((false, vec![0])) };
+                }
+            }
+            for x in &iftx_opts[..2] {
+                out.push(ExtScenario { ift: TableModel::F2(t2_of(entries.clone())), iftx: x.clone(), consistent_store: true });
+            }
+        }
+    }
+    // (audit) format-1 glyph keyed table whose applied-entries bitmap is three bytes long: entries 7, 8, 9,
+    // 16, 17 sit on both sides of the byte boundaries
+    for (entry_index, max) in [(vec![7u16, 8, 9, 16, 17], 17u16), (vec![15, 16, 8, 1, 23], 23)] {
+        out.push(ExtScenario {
+            ift: TableModel::F1(T1 {
+                compat: [1, 2, 3, 4],
+                max_entry_index: max,
+                max_glyph_map_entry_index: max,
+                glyph_count: 6,
+                first_mapped_glyph: 1,
+                entry_index,
+                feature_map: None,
+                applied: vec![0; bitmap_len(max)],
+                template: b"p/{id}".to_vec(),
+                patch_format: 3,
+                cff_off: None,
+                cff2_off: None,
+            }),
+            iftx: None,
+            consistent_store: true,
+        });
+    }
     out
 }
 
